@@ -11,7 +11,7 @@ import (
 type PropSpec struct {
 	ID          string
 	Rules       []string
-	Explanation string   // what the static check decides and what it does not
+	Explanation string // what the static check decides and what it does not
 	Assumptions []string
 }
 
